@@ -4,13 +4,15 @@
     (their [prop_case] is evaluated at run time only). *)
 From V.Lib Require Import Base Hex.
 From V.Gen Require Import C11Consts.
-From V.C11 Require Import Model Spec Corr Wf ProofsAddr.
+From V.C11 Require Import Model Spec Tab Eqb Legacy CorrLegacy Gap CorrGap Corr Wf ProofsAddr.
 Local Open Scope N_scope.
 
 Definition bridged (c : case) : bool :=
   match c with
   | CIntersect _ _ _ | CReqsNew _ _ _ _ | CReqsUnsafeNew _ _ _ _ | CReqsIntersect _ _ _
-  | CUskToUfvk _ _ _ | CAddr _ _ _ _ _ => true
+  | CUskToUfvk _ _ _ | CAddr _ _ _ _ _ | CUfvkToUivk _ _ _ | CRecvReq _ _ _ | CUskEncode _ _ => true
+  | CLegacy (LEnc _ _ _ _) | CLegacy (LEncP _ _ _ _) | CLegacy (LTEnc _ _ _ _) | CLegacy (LTEncP _ _ _ _) => true
+  | CGap (GLimit _ _ _ _ _) => true
   | _ => false
   end.
 
@@ -35,6 +37,42 @@ Qed.
 
 Lemma reqs_eqb_sym a b : reqs_eqb a b = reqs_eqb b a.
 Proof. destruct a as [x y z], b as [x' y' z']; destruct x, y, z, x', y', z'; reflexivity. Qed.
+
+Lemma req_eqb_true a b : req_eqb a b = true -> a = b.
+Proof. destruct a, b; simpl; congruence. Qed.
+Lemma reqs_eqb_true a b : reqs_eqb a b = true -> a = b.
+Proof.
+  destruct a as [x y z], b as [x' y' z']. unfold reqs_eqb. cbn [rq_o rq_s rq_t].
+  intros H. apply andb_true_iff in H. destruct H as [H H3]. apply andb_true_iff in H. destruct H as [H1 H2].
+  apply req_eqb_true in H1, H2, H3. congruence.
+Qed.
+
+Definition recv_prop (k : uivk) (r : request) (o : outcome reqs aerr) : bool :=
+  match o with
+  | Ok q => match effective k r with
+            | Some q' => reqs_eqb q q'
+                         && negb (required (rq_o q) && negb (is_some (ivk_o k)))
+                         && negb (required (rq_s q) && negb (is_some (ivk_s k)))
+                         && negb (required (rq_t q) && negb (is_some (ivk_t k)))
+            | None => false
+            end
+  | Err _ => match effective k r with
+             | Some q => (required (rq_o q) && negb (is_some (ivk_o k)))
+                         || (required (rq_s q) && negb (is_some (ivk_s k)))
+                         || (required (rq_t q) && negb (is_some (ivk_t k)))
+             | None => true
+             end
+  | Panic => false
+  end.
+
+Lemma recv_prop_model k r : recv_prop k r (receiver_requirements k r) = true.
+Proof.
+  destruct k as [kt ks ko ku]. destruct r as [|[qo qs qt]];
+    unfold recv_prop, receiver_requirements, to_receiver_requirements, effective, reqs_new;
+    cbn [ivk_t ivk_s ivk_o rq_o rq_s rq_t].
+  - destruct ko, ks, kt; reflexivity.
+  - destruct ko, ks, kt, qo, qs, qt; reflexivity.
+Qed.
 
 Theorem agree_implies_property_partial c :
   bridged c = true -> wf_case c = true -> known_class c = 0 -> run_case c = true -> prop_case c = true.
@@ -61,8 +99,21 @@ Proof.
       * destruct (rq_s a), (rq_s b); discriminate.
     + destruct e1; [exact R|]. destruct (rq_o a), (rq_o b); discriminate.
     + destruct (rq_o a), (rq_o b); discriminate.
+  - (* CRecvReq *)
+    change (recv_prop k r o = true). pose proof (recv_prop_model k r) as M.
+    destruct (receiver_requirements k r) as [q0|e0|]; destruct o as [q|e|]; cbn in R; try discriminate.
+    + apply reqs_eqb_true in R. subst. exact M.
+    + exact M.
   - exact R.
+  - (* CUfvkToUivk *)
+    rewrite ufvk_to_uivk_spec in R. destruct (spec_ivk_of_fvk (orc_of t) k) as [i|]; destruct o; cbn in R; try discriminate; auto.
+  - reflexivity.
   - destruct (spec_uivk_of (orc_of t) k) as [i|] eqn:E; [|reflexivity].
     rewrite (model_addrs_spec _ _ _ _ _ E) in R.
     apply list_eqb_repeat in R. destruct R as [L F]. apply andb_true_iff; split; [apply Nat.eqb_eq; exact L | exact F].
+  - (* CLegacy: the encoders *)
+    destruct l; try discriminate; cbn [lrun lprop legacy_encode t_encode] in *; try exact R;
+      destruct a; exact R.
+  - (* CGap: limit_for *)
+    destruct g; try discriminate. exact R.
 Qed.
